@@ -31,7 +31,8 @@ CONSTANTS
     DoEdits,    \* .do files the user may edit / remove / add
     MaxHist,    \* bound on the number of user-level steps
     MaxCmds,    \* bound on the number of commands among them
-    UnlockedBug \* TRUE: redo-unlocked re-runs its deps instead of its target (pinned defect)
+    UnlockedBug, \* TRUE: redo-unlocked re-runs its deps instead of its target (pinned defect)
+    NameSeq     \* all file names in the order of SQL `order by name` (TLC cannot compare strings)
 
 Files == Plain \cup DoFiles
 Names == Files \cup {ALWAYS}
@@ -55,6 +56,7 @@ VARIABLES
              \*              checksummed target that reproduces the same content
              \*   gh.seen[t] what t's last successful build saw: [built, out, deps, stamped, val]
              \*   gh.fails   targets whose build failed in the command in flight
+             \*   gh.src     files redo has accepted as sources (static) since they were last written
 
 vars == <<fs, tmp, clock, w, runid, locks, procs, cmd, hist, ran, ncmds, pool, gh>>
 
@@ -124,9 +126,9 @@ Init ==
     /\ pool = 0
     /\ gh = [cg |-> [n \in Files |-> 0],
              seen |-> [n \in Plain |-> NeverBuilt],
-             fails |-> {}]
+             fails |-> {}, src |-> {}]
 
-Bump(n) == [gh EXCEPT !.cg[n] = @ + 1]
+Bump(n) == [gh EXCEPT !.cg[n] = @ + 1, !.src = @ \ {n}]
 
 Quiet == DOMAIN procs = {} /\ cmd.kind = "idle"
 
@@ -231,7 +233,7 @@ QueryOut(kind, rid) ==
     IF kind = "targets" THEN tg
     ELSE IF kind = "sources" THEN {n \in known : IsSource(w, e, n)}
     ELSE \* ood: is_dirty over the targets in name order, sharing the in-memory memo
-        LET order == SetToSortSeq(tg, LAMBDA a, b : a < b)
+        LET order == SelectSeq(NameSeq, LAMBDA x : x \in tg)
             F[i \in 0..Len(order)] ==
                 IF i = 0 THEN [w |-> w, out |-> {}]
                 ELSE LET d == IsDirty(F[i-1].w, e, order[i]) IN
@@ -242,7 +244,8 @@ Query(c) ==
     /\ CanAct /\ ncmds < MaxCmds /\ c \in Cmds /\ c.kind \in {"ood", "targets", "sources"}
     /\ runid' = runid + 1
     /\ ncmds' = ncmds + 1
-    /\ hist' = Append(hist, [a |-> "query", kind |-> c.kind, out |-> QueryOut(c.kind, runid + 1)])
+    /\ hist' = Append(hist, [a |-> "query", kind |-> c.kind, out |-> QueryOut(c.kind, runid + 1),
+                             snap |-> Snapshot])
     /\ UNCHANGED <<fs, tmp, clock, w, locks, procs, cmd, ran, pool, gh>>
 
 (***************************************************************************)
@@ -296,7 +299,7 @@ Decide(p, t, w1, adv) ==
                             ELSE [adv EXCEPT !.jobs = @ \cup {[JobRec(t, "imm", sf, before, NoPid)
                                                                EXCEPT !.st = "exited", !.rv = rv]}]]
             /\ gh' = IF rv # 0 THEN [gh EXCEPT !.fails = @ \cup {t}, !.seen[t].built = FALSE]
-                     ELSE IF kind = "static" THEN [gh EXCEPT !.seen[t] = NeverBuilt]   \* now a source
+                     ELSE IF kind = "static" THEN [gh EXCEPT !.seen[t] = NeverBuilt, !.src = @ \cup {t}]   \* now a source
                      ELSE gh
             /\ UNCHANGED <<fs, tmp, clock, runid, locks, cmd, hist, ran, ncmds, pool>>
     IN
@@ -430,7 +433,7 @@ RecCommit(p, j) ==
                       deps == {[m |-> d.m, n |-> d.n, g |-> IF d.n = ALWAYS THEN 0 ELSE gh.cg[d.n]] : d \in j.decl}
                               \cup {[m |-> "m", n |-> j.df, g |-> gh.cg[j.df]]}
                               \cup {[m |-> "c", n |-> c, g |-> 0] : c \in hi}
-                  IN [gh EXCEPT !.cg[j.t] = g1,
+                  IN [gh EXCEPT !.cg[j.t] = g1, !.src = @ \ {j.t},
                                 !.seen[j.t] = [built |-> TRUE, out |-> g1, deps |-> deps,
                                                stamped |-> j.stamped, val |-> ReadVal(j.t)]]
     /\ UNCHANGED <<fs, tmp, clock, runid, cmd, hist, ran, ncmds, pool>>
@@ -532,7 +535,8 @@ ScriptStep(s) ==
                  /\ procs' = [procs EXCEPT ![s] = [nxt EXCEPT !.stamped = TRUE]]
                  /\ UNCHANGED <<fs, tmp, clock, runid, locks, cmd, hist, ran, ncmds, pool, gh>>
             [] op = "out" ->
-                 LET val == [n |-> S.t, k |-> S.df, v |-> S.dv,
+                 \* o.rc # 0 is a content tag: rule versions with the same tag write equal bytes
+                 LET val == [n |-> S.t, k |-> S.df, v |-> IF o.rc # 0 THEN o.rc ELSE S.dv,
                              d |-> [i \in 1..Len(o.args) |-> ReadVal(o.args[i])]]
                  IN
                  /\ procs' = [procs EXCEPT ![s] = [nxt EXCEPT !.val = val,
